@@ -1,6 +1,7 @@
 package harness
 
 import (
+	"os"
 	"bytes"
 	"context"
 	"encoding/json"
@@ -43,6 +44,9 @@ type c02Case struct {
 	Busy   bool
 	OtherN int
 	Fault  fsFault // file back-end: a disk fault while the message is being stored
+	// SlowPop: the POP3 client reads the message slowly but steadily through small
+	// connection buffers - no pause comes near the idle timeout, all of them together exceed it
+	SlowPop bool
 }
 
 func (k *c02Case) busyString() string {
@@ -52,7 +56,12 @@ func (k *c02Case) busyString() string {
 	return fmt.Sprintf("busy server: second SMTP session (%d-byte message) alongside, readers concurrent", k.OtherN)
 }
 
-func (k *c02Case) faultString() string { return k.Fault.String() }
+func (k *c02Case) faultString() string {
+	if k.SlowPop {
+		return k.Fault.String() + "; slow POP3 reader"
+	}
+	return k.Fault.String()
+}
 
 func (k *c02Case) Describe() []string {
 	l := []string{fmt.Sprintf("store=%s %s recipients=%d noFinalNewline=%v size=%d", k.Store, profileString(k.Net), k.Rcpts, k.NoFinal, len(k.data())), k.busyString(), k.faultString()}
@@ -178,6 +187,24 @@ func genC02(w *simrt.Choices, tier string, avoid map[string]bool) Case {
 	if k.Store.Backend == "file" && !k.Busy {
 		k.Fault = genFSFault(w, 1)
 	}
+	if !k.Busy && len(k.Pieces) > 0 && w.Choose(4) == 0 {
+		// a message of many ordinary lines (no single line dominates the transfer)
+		var ps []c02Piece
+		for _, p := range k.Pieces {
+			if p.Kind != "long" {
+				ps = append(ps, p)
+			}
+		}
+		if len(ps) > 0 {
+			k.Pieces = ps
+			for len(k.data()) < 6000 && len(k.Pieces) < 60 {
+				k.Pieces = append(k.Pieces, ps...)
+				k.Pieces = append(k.Pieces, c02Piece{Kind: "text", N: 77, Seed: len(k.Pieces)})
+			}
+			k.SlowPop = true
+			k.Net.BufCap, k.Net.MaxDelay = 64, 0
+		}
+	}
 	return k
 }
 
@@ -189,6 +216,9 @@ func runC02(c *Ctx, cs Case) {
 		ensureFS(c.Sim)
 	}
 	simnet.Of(c.Sim).Profile = k.Net
+	if os.Getenv("VERIF_NET_TRACE") != "" {
+		simnet.Of(c.Sim).Profile.Trace = true
+	}
 	eh := extension.NewHost()
 	st, err := openStore(k.Store, eh)
 	if err != nil {
@@ -197,6 +227,9 @@ func runC02(c *Ctx, cs Case) {
 	root := baseRoot()
 	root.SMTP.Timeout = 600 * time.Second
 	root.POP3.Timeout = 600 * time.Second
+	if k.SlowPop {
+		root.POP3.Timeout = 30 * time.Second
+	}
 	env := startSMTP(c, root, st, eh)
 	pop := startPOP3(c, root.POP3, st)
 	hub := msghub.New(5, eh)
@@ -574,7 +607,26 @@ func runC02(c *Ctx, cs Case) {
 			c.Failf("pop3-size-differs", "LIST 1 answered %q, the stored source has %d bytes", r.First, len(stored))
 			return
 		}
+		if k.SlowPop {
+			// pause after every chunk of bytes; a chunk is at least as long as the longest
+			// line, so that no single line of the server takes more than two pauses
+			longest := 0
+			for _, ln := range bytes.Split(ns, []byte("\n")) {
+				if len(ln) > longest {
+					longest = len(ln)
+				}
+			}
+			chunk := len(ns) / 8
+			if chunk < longest+3 {
+				chunk = longest + 3
+			}
+			if len(ns)/chunk >= 5 { // otherwise the whole transfer stays below the timeout anyway
+				pc.slowChunk, pc.slowBy = chunk, root.POP3.Timeout/3
+				c.Stat("fault.slow_steady_pop3_reader", 1)
+			}
+		}
 		r := say("RETR 1", true)
+		pc.slowChunk = 0
 		if !r.OK || r.Err != nil {
 			c.Failf("pop3-retr-failed", "RETR 1: %s", r)
 			return
